@@ -98,12 +98,18 @@ def run_job(job, rh, vh, use_cache=True):
         res['obligations'] = len(r['props']) - n_wit_expected
         res['witnesses'] = n_wit_expected
         res['witnesses_reached'] = len(wit)
-        if job.witness and (n_wit_expected == 0 or len(wit) < n_wit_expected):
+        if any('unwinding assertion' in (f['description'] or '') for f in real):
+            uw = [f for f in real if 'unwinding assertion' in (f['description'] or '')]
+            res['failed'] = [f['description'] for f in real]
+            res.update(status='error', detail='unwinding bound too small for this harness (an --unwinding-assertions check failed): %s' %
+                       sorted(set(f['property'] for f in uw)))
+            # a loop of the LIBRARY that exceeds its bound may be a non-terminating loop: replay natively with a time limit
+            if any((f['property'] or '').startswith('F_') for f in uw) and not job.model_only:
+                rp = replay_failure(job, g, uw, extra, hang_probe=True)
+                if rp.get('status') == 'violation': res.update(rp)
+        elif job.witness and (n_wit_expected == 0 or len(wit) < n_wit_expected):
             res.update(status='vacuous', detail='witness assertion(s) not reachable: %s' %
                        [p[1] for p in r['props'] if is_witness(p[1]) and p[1] not in [w['description'] for w in wit]])
-        elif any('unwinding assertion' in (f['description'] or '') for f in real):
-            res.update(status='error', detail='unwinding bound too small for this harness (an --unwinding-assertions check failed): %s' %
-                       sorted(set(f['property'] for f in real if 'unwinding assertion' in (f['description'] or ''))))
         elif not real:
             res.update(status='ok', discharged=res['obligations'])
         else:
@@ -120,13 +126,15 @@ def run_job(job, rh, vh, use_cache=True):
         json.dump(res, open(cpath, 'w'))
     return res
 
-def replay_failure(job, g, real, extra):
+def replay_failure(job, g, real, extra, hang_probe=False):
     """re-run with --trace, extract inputs, run natively against the real code"""
     out = {}
     defs = job.cfg_defines() + job.defines + (['IR_MEMSET_SWEEP'] if job.sweep else [])     # no WITNESS: the trace must be for a real obligation
     r = build.run_cbmc(g, job.harness, defines=defs, unwind=job.unwind, unwindset=list(job.unwindset) + sweep_unwind(job, g), timeout=job.timeout * 2,
                        mem_gb=job.mem_gb, function=job.function, extra=extra, trace=True)
     fl = [f for f in r.get('failed', []) if f.get('trace')]
+    if hang_probe:
+        fl = [f for f in fl if 'unwinding assertion' in (f.get('description') or '')] or fl
     if not fl:
         return dict(status='inconclusive', detail='no trace obtained for failing obligation(s) %s (%s)' % ([f['description'] for f in real], r['status']))
     f0 = fl[0]
@@ -141,11 +149,14 @@ def replay_failure(job, g, real, extra):
         if heap is not None: fh.write('H ' + ''.join('%02x' % b for b in heap) + '\n')
     out['replay'] = rpath
     out['failing'] = f0['description']
-    model_only = f0['description'].startswith('IR: ') or 'unwinding assertion' in (f0['description'] or '')
+    model_only = f0['description'].startswith('IR: ')
+    if hang_probe and 'unwinding assertion' in (f0['description'] or ''): model_only = False
     try:
         exe = build.build_native(g, job.harness, defines=defs + ['HEAP_SIZE_NATIVE=1'])
-        p = subprocess.run([exe, rpath], stdout=subprocess.PIPE, stderr=subprocess.STDOUT, text=True, timeout=60)
+        p = subprocess.run([exe, rpath], stdout=subprocess.PIPE, stderr=subprocess.STDOUT, text=True, timeout=20 if hang_probe else 60)
         out['native_rc'] = p.returncode; out['native_out'] = p.stdout[-800:]
+    except subprocess.TimeoutExpired:
+        return dict(out, status='violation', detail='native run of the counterexample does not terminate (killed after the time limit): a loop of the library never exits')
     except Exception as e:
         return dict(out, status='inconclusive', detail='native replay could not run: %s' % str(e)[-1500:])
     if p.returncode == 1 and 'ASSERTION-VIOLATED' in p.stdout:
